@@ -45,3 +45,9 @@ CHECKS["C12"] = {
   "text": "For every update(): no step and unchanged state iff HF >= 1; per step: HF < 1 before, one debt visited at most once, repaid <= close factor (1/2 above HF 0.95, else 1) x debt, seized = repaid value x (1 + collateral's bonus) / collateral price at the collateral's own liquidity index (or all collateral with the repayment scaled), only that collateral and that debt change, wallet identical, net value falls by exactly bonus x repaid value, amounts non-negative, the LiquidationAction fields equal the observed deltas; on exit HF >= 1 or no collateral or every positive debt visited; no exception escapes. Sampled exploration with unequal indices in 5 of 6 cases.",
   "note": "The choice of the (collateral, debt) pair is not prescribed by the property and not checked. States in which a supply with liquidation threshold 0 was flagged as collateral by hand are excluded from the 'iff' direction.",
 }
+
+CHECKS["C15"] = {
+  "technique": "Hypothesis generated order books and order sequences on the real DeribitOptionMarket; every step validated against a Decimal reference matching engine applied to the visible book",
+  "text": "Generated ETH / BTC books (0-8 levels per side, integer and float sizes, bids <= mark <= asks) x 1-7 orders per bar over 1-2 bars in all pricing modes (market, limit in token with jitter, limit in USD, cap relative to mark, cap + limit), sizes from below the minimum to beyond total depth, deposits / withdrawals in between; per step: accepted iff the reference fills it (depth, level, cash, holding), fills best-first with per-level sizes, fee = min(0.03% x contracts, 12.5% x premium) half-up at the fee step, cash / position / size-weighted averages, visible book after the fill, other instruments untouched, the action record, equity = cash + positions at mark; a rejected order leaves everything as it was; the book refreshes on the next bar and the supplied frame is never written. Sampled exploration.",
+  "note": "Decisions closer than 1e-9 to their boundary (float book sizes, a level exactly on the cap) are not asserted.",
+}
